@@ -207,6 +207,10 @@ static void handle_line(int nf, char **f) {
     if (!strcmp(f[0], "sink") && nf >= 3) {
         if (!strcmp(f[1], "file") && nf >= 4) { struct verif_sink *s = new_sink(SINK_FILE, f[2]); strncpy(s->path, f[3], sizeof s->path - 1); struct stat st; s->offset = stat(s->path, &st) == 0 ? st.st_size : 0; }
         else if (!strcmp(f[1], "pipe") && nf >= 4) { int p[2]; if (pipe2(p, O_CLOEXEC)) exit(3); fcntl(p[1], F_SETPIPE_SZ, 1 << 20); int tfd = atoi(f[3]); dup2(p[1], tfd); close(p[1]); struct verif_sink *s = new_sink(SINK_PIPE, f[2]); s->fd = p[0]; }
+        else if (!strcmp(f[1], "sockpair") && nf >= 4) { /* descriptor <n> is one end of a stream socket pair (a service started by systemd/inetd/sshd) */
+            int p[2]; if (socketpair(AF_UNIX, SOCK_STREAM | SOCK_CLOEXEC, 0, p)) exit(3);
+            int big = 1 << 21; setsockopt(p[1], SOL_SOCKET, SO_SNDBUF, &big, sizeof big); setsockopt(p[0], SOL_SOCKET, SO_RCVBUF, &big, sizeof big);
+            int tfd = atoi(f[3]); dup2(p[1], tfd); close(p[1]); struct verif_sink *s = new_sink(SINK_PIPE, f[2]); s->fd = p[0]; }
         else if (!strcmp(f[1], "dgram") && nf >= 4) { struct verif_sink *s = new_sink(SINK_DGRAM, f[2]); strncpy(s->path, f[3], sizeof s->path - 1); s->fd = bind_dgram(f[3]); }
         else if (!strcmp(f[1], "devlog") && nf >= 4) { struct verif_sink *s = new_sink(SINK_DGRAM, f[2]); strncpy(s->path, f[3], sizeof s->path - 1); s->fd = bind_dgram(f[3]); strncpy(verif_expect.devlog_redirect, f[3], sizeof verif_expect.devlog_redirect - 1); }
         else if (!strcmp(f[1], "tty")) {
@@ -227,6 +231,16 @@ static void handle_line(int nf, char **f) {
     } else if (!strcmp(f[0], "stdin") && nf >= 2) {
         if (!strcmp(f[1], "closed")) close(0);
         else if (!strcmp(f[1], "null")) { int fd = open("/dev/null", O_RDONLY); dup2(fd, 0); close(fd); }
+    } else if (!strcmp(f[0], "rename") && nf >= 3) {
+        /* log rotation between two calls of one process: what was there moves away, the next record must create the file anew */
+        char *from = subst(f[1], strlen(f[1]), NULL), *to = subst(f[2], strlen(f[2]), NULL);
+        (void)!rename(from, to);
+        struct stat st; long tosz = stat(to, &st) == 0 ? (long) st.st_size : 0;
+        for (int i = 0; i < verif_expect.nsinks; i++) {
+            struct verif_sink *k = &verif_expect.sinks[i];
+            if (k->kind == SINK_FILE && !strcmp(k->path, from)) k->offset = 0;
+            else if (k->kind == SINK_FILE && !strcmp(k->path, to)) k->offset = tosz;
+        }
     } else if (!strcmp(f[0], "stack") && nf >= 2) { STACK_KIB = (size_t) atol(f[1]);
     } else if (!strcmp(f[0], "libcbuf") && nf >= 2) { LIBCBUF = atoi(f[1]);
     } else if (!strcmp(f[0], "call")) { do_call(nf, f);
